@@ -229,7 +229,7 @@ def replay_zippy_edges(jobfile, edges_file, shards=None):
     return tot
 
 
-def check_instance(name, desc, wd, qmax=1, maxep=0, maxmod=0, maxidle=0, maxhold=3, since_cap=0, bug="none", edges=True, workers=4, timeout=900, replay=True):
+def check_instance(name, desc, wd, qmax=1, maxep=0, maxmod=0, maxidle=0, maxhold=3, since_cap=0, bug="none", edges=True, workers=6, timeout=900, replay=True):
     """TLC exhaustive run (binding D) + edge-cover replay on the real code (binding B)."""
     t0 = time.time()
     C = cfgdesc.code
@@ -542,7 +542,7 @@ def run(tier, seed):
 
     # D + B: TLC explores Zippy || P_C20, every transition replayed on the real code
     for name, desc, b in family(tier) + ([] if quick else random_instances(rng, 8)):
-        r = check_instance(name, desc, wd, maxhold=b["hold"], workers=4, timeout=1500)
+        r = check_instance(name, desc, wd, maxhold=b["hold"], workers=6, timeout=1500)
         res.add_instance(r)
         if r.get("skipped"):
             res.notes.append("instance %s not explored by TLC: %s" % (name, r["skipped"]))
